@@ -10,7 +10,7 @@
    What a validator "knows" at a moment = the messages handed to it + its own + (through a RecoveryMessage) what the sender of
    that message knew when it sent it — a superset of what its dBFT instance has actually processed, so every guard below is
    necessary for the real library to have acted as the abstract node would. *)
-From NG Require Import Common.Tactics Common.HarnessLib.
+From NG Require Import Common.Tactics Common.HarnessLib Codec.Multisig Consensus.Witness.
 Open Scope N_scope.
 
 Inductive event :=
@@ -18,7 +18,16 @@ Inductive event :=
 | EDeliver (i k : N)
 | EAccept (i h v b : N).
 
-Inductive case := CRun (n : N) (evs : list event).
+Inductive case :=
+| CRun (n : N) (evs : list event)
+(* a block hand-over in a directed schedule: number of validators, the service's view, its commit table (view of the stored
+   Commit of each validator, -1 = none), for each signature of the witness the validator whose key verifies it over the
+   block (-1 = nobody), and whether the own and an independent ledger accepted the block *)
+| CWitness (n cur : N) (views : list Z) (signers : list Z) (own_ok other_ok : bool)
+(* a crafted PrepareRequest handed to a real backup: the facts the glue checks (previous hash, version, state root, number
+   of hashes, timestamp, block size, system fee) and per transaction 0 = known and valid, 1 = unknown and not obtainable,
+   2 = obtained but invalid, 3 = repetition; what the backup did *)
+| CProposal (prev_ok ver_ok sr_ok cnt_ok ts_ok size_ok fee_ok : bool) (txs : list N) (responded change_view requested : bool).
 
 Definition sendrec := (N * N * N * N * N * N)%type.   (* index, sender, height, type, view, b *)
 
@@ -116,8 +125,42 @@ Definition cstep (n : N) (c : cst) (e : event) : cst :=
 Definition agree (acc : list (N * N * N)) : bool :=
   forallb (fun a => forallb (fun a' => let '(h, _, b) := a in let '(h', _, b') := a' in negb (h =? h') || (b =? b')) acc) acc.
 
+(* the model's table: validator i, view v -> a signature of i over "the header of view v" *)
+Definition table_of (views : list Z) : table :=
+  map (fun iv => let '(i, v) := iv in if (v <? 0)%Z then None else Some (Z.to_N v, mkSg i (Z.to_N v)))
+      (combine (seq 0 (length views)) views).
+
+Fixpoint increasing (l : list Z) (lo : Z) : bool :=
+  match l with [] => true | x :: t => (lo <? x)%Z && increasing t x end.
+
+(* verifyRequest, then the missing-transaction wait, then verifyBlock (consensus.go) *)
+Definition proposal_expect (prev_ok ver_ok sr_ok cnt_ok ts_ok size_ok fee_ok : bool) (txs : list N) : bool * bool * bool :=
+  (* (PrepareResponse, ChangeView, transactions requested) *)
+  if negb (prev_ok && ver_ok && sr_ok && cnt_ok) then (false, true, false)
+  (* a repeated hash: dBFT's hasAllTransactions (len(hashes) = len(transactions)) never holds, the backup stays silent
+     until its timer fires; verifyBlock's duplicate check is not reached *)
+  else if existsb (N.eqb 3) txs then (false, false, existsb (N.eqb 1) txs || existsb (N.eqb 2) txs)
+  else if existsb (N.eqb 1) txs then (false, false, true)
+  else if ts_ok && size_ok && fee_ok && forallb (N.eqb 0) txs then (true, false, existsb (N.eqb 2) txs)
+  else (false, true, existsb (N.eqb 2) txs).
+
 Definition check_case (c : case) : N :=
   match c with
+  | CWitness n cur views signers own_ok other_ok =>
+      let m := N.to_nat (quorum n) in
+      let w := assemble true m cur (table_of views) in
+      let expected := map (fun s => Z.of_nat (signer s)) w in
+      let mech := list_eqb Z.eqb expected signers in
+      (* specification: M signatures, each valid for some validator, in validator order, both ledgers accept *)
+      let spec := own_ok && other_ok && Nat.eqb (length signers) m && increasing signers (-1)
+                  && seq_match (verify_hd cur) (seq 0 (length views)) w in
+      if mech && spec then 0 else if spec then 1 else 2
+  | CProposal a b c0 d e f g txs responded cv requested =>
+      let '(r, v, q) := proposal_expect a b c0 d e f g txs in
+      (* specification: a PrepareResponse exactly for an acceptable proposal *)
+      let spec := Bool.eqb responded r in
+      let mech := spec && Bool.eqb cv v && (negb q || requested) in
+      if mech && spec then 0 else if spec then 1 else 2
   | CRun n evs =>
       if (n =? 4) || (n =? 7) then
         let final := fold_left (cstep n) evs (mkC 0 [] [] [] [] true) in
